@@ -1,13 +1,22 @@
 """C05 - results do not depend on neighbour algorithm, cache, threads or
 reordering.
 
-Every configuration is one run of a small Application (checks/c05_apps.py)
-through the real front end (`Application.run(argv)`) in its own subprocess.
+Every configuration is one run of a small Application (checks/c05_apps.py:
+2D/3D free-surface drops, column on a solid floor, periodic box, periodic
+channel between walls, gas blob with density-adaptive h in 1D/2D, stream with
+inlet and outlet) through the real front end (`Application.run(argv)`) in its
+own subprocess.  The problem-level options of a case (scheme variant,
+adaptive time steps, dump frequency, output detail) are the same in all its
+runs; the configuration options (--nnps and its tuning parameters,
+--cache-nnps, --openmp/--no-openmp, threads, --omp-schedule, --reorder-freq,
+--sort-gids, --fixed-h) differ.
 Metamorphic oracle: against the reference configuration (ll, no cache, no
-OpenMP, no reordering) every output property agrees per particle (matched by
-gid) to 1e-9*scale; configurations with --sort-gids, OpenMP on and the same
---reorder-freq are bit-identical across neighbour algorithm, cache and
-thread count; a configuration run twice is bit-identical to itself.
+OpenMP, no reordering) every output property of every dump agrees per
+particle (matched by gid) to 1e-9*scale, with the same iteration count and
+(to 1e-9) the same time and time step; configurations with --sort-gids and
+the same --reorder-freq are bit-identical across neighbour algorithm, cache,
+thread count and schedule (among the OpenMP runs and among the serial runs);
+a configuration run twice is bit-identical to itself.
 """
 import json
 import os
@@ -20,12 +29,23 @@ from vlib.hyp import (Failure, Outcome, Stats, search, derive_seed, canon,
                       case_hash)
 
 RULE = ('case = (problem in {free-surface drop, fluid column on a solid '
-        'floor [2 arrays], doubly periodic box}, lattice size, jitter, dt, '
-        'number of steps) x a drawn set of configurations from --nnps (10 '
-        'values) x --cache-nnps x --openmp with OMP_NUM_THREADS in '
-        '{1,2,3,5,8,16} / --no-openmp x --reorder-freq {0,1,3} x '
-        '--sort-gids, always containing >= 2 sorted+OpenMP configurations '
-        'and one repeated configuration. A comparison (pair of runs) is '
+        'floor [2 arrays], doubly periodic box, 3D drop, gas blob with '
+        'density-adaptive h [GasDScheme mpm/gsph, optionally periodic], '
+        'periodic channel between solid walls [2 arrays + ghosts], stream '
+        'with inlet and outlet [3 arrays, particles enter and leave]}, '
+        'lattice size, jitter, dt, number of steps, per-particle h, scheme '
+        'variant [--update-h, --delta-sph, --summation-density], fixed or '
+        'adaptive time steps, dump frequency [every dump is compared], '
+        '--detailed-output, -z, permuted gids, passive int/strided '
+        'properties) x a drawn set of configurations from --nnps (10 '
+        'values, with drawn --spatial-hash-sub-factor / '
+        '--spatial-hash-table-size / --stratified-grid-num-levels / '
+        '--tree-leaf-max-particles) x --cache-nnps x --openmp with '
+        'OMP_NUM_THREADS in {1,2,3,5,8,16} and --omp-schedule in {default, '
+        'static, guided} / --no-openmp x --reorder-freq {0,1,3} x '
+        '--sort-gids x --fixed-h (only where h is constant in time), always '
+        'containing >= 2 sorted+OpenMP configurations and one repeated '
+        'configuration. A comparison (pair of runs) is '
         'non-trivial when the two differ in >= 1 option and the final state '
         'differs from the initial one by > 1e-3*scale; distinct by (case, '
         'pair) hash.')
@@ -36,23 +56,79 @@ ASSUMPTIONS = [
     'tolerance 1e-9 relative to max|reference| of each property (summation '
     'order), bitwise only where the statement promises it',
     'a run that exceeds the harness time limit is inconclusive',
+    'the problem-level options (scheme variant, adaptive time steps, dump '
+    'frequency, output detail) are the same in every run of a case: they '
+    'define the simulation, only the configuration options differ',
+    '--fixed-h is passed only to problems whose smoothing lengths do not '
+    'change in time (it then states a fact); tuning parameters of a '
+    'neighbour algorithm are treated as variants of that algorithm',
+    'a case whose reference run ends with non-finite values is skipped and '
+    'counted (ref_nonfinite)',
+    'periodic boxes are wider than twice the largest kernel support, so '
+    'that a particle and its own periodic image (same gid) are never both '
+    'neighbours of one particle (the order "sorted by gid" would be '
+    'ambiguous)',
+    'OMP_WAIT_POLICY=PASSIVE in every run (waiting threads sleep; many runs '
+    'share the machine)',
 ]
 ESSENTIAL_LABELS = {'all': ['problem:drop', 'problem:column',
                             'problem:periodic', 'bitwise_group', 'repeat',
                             'openmp', 'cache', 'reorder', 'sort_gids',
                             'variable_h', 'h_ratio_2',
-                            'all_nnps_sweep']}
+                            'all_nnps_sweep',
+                            'problem:drop3d', 'problem:gas',
+                            'problem:channel', 'problem:pipe',
+                            'h_evolves', 'adaptive_dt', 'dt_varies',
+                            'intermediate_dumps', 'detailed_output',
+                            'omp_schedule', 'nnps_tuning', 'fixed_h_flag',
+                            'gid_permuted', 'passive_props',
+                            'particles_entered', 'particles_left',
+                            'periodic_variable_h', 'variant:update_h',
+                            'variant:delta_sph',
+                            'variant:summation_density',
+                            'gas:mpm', 'gas:gsph', 'gas:periodic', 'gas:1d',
+                            'bitwise_group_serial',
+                            'reorder_after_io_in_last_stage',
+                            'reorder_with_orig_idx_ghosts',
+                            'io_last_stage']}
 SHARD_TIMEOUT = {'quick': 1700, 'thorough': 10 * 3600}
 NNPS = ['ll', 'box', 'sh', 'esh', 'ci', 'sfc', 'tree', 'comp_tree',
         'strat_hash', 'strat_sfc']
 PY = '/venv/bin/python'
 
 
+# tuning parameters of the neighbour algorithms that the front end passes on
+TUNE = {
+    'sh': {'table_size': [1024, 7]},
+    'esh': {'H': [1, 2, 4, 5], 'table_size': [1024, 7]},
+    'strat_hash': {'num_levels': [2, 3, 4], 'table_size': [1024, 7]},
+    'strat_sfc': {'num_levels': [2, 3, 4]},
+    'tree': {'leaf_max': [1, 3, 32]},
+    'comp_tree': {'leaf_max': [1, 3, 32]},
+}
+TUNE_OPT = {'H': '--spatial-hash-sub-factor',
+            'table_size': '--spatial-hash-table-size',
+            'num_levels': '--stratified-grid-num-levels',
+            'leaf_max': '--tree-leaf-max-particles'}
+SCHEDULES = ['static', 'guided,8']
+# algorithms that implement get_spatially_ordered_indices
+ORDERING = ['ll', 'ci', 'sfc', 'tree', 'comp_tree', 'strat_sfc']
+# problems with several particle arrays (the open finding on strat_sfc is
+# about neighbours between different arrays)
+MULTI_ARRAY = ('column', 'channel', 'pipe')
+ADAPTIVE_OK = ('drop', 'column', 'drop3d', 'gas', 'pipe')
+PROBLEMS = ('drop', 'column', 'periodic', 'drop3d', 'gas', 'channel', 'pipe')
+
+
+def h_evolves(problem, phys):
+    return problem == 'gas' or phys.get('variant') == 'update_h'
+
+
 @st.composite
 def config_strategy(draw, force_sorted_omp=False, reorder=None,
-                    exclude=()):
+                    exclude=(), fixed_ok=False, extras=True):
     omp = True if force_sorted_omp else draw(st.booleans())
-    return dict(
+    cfg = dict(
         nnps=draw(st.sampled_from([n for n in NNPS if n not in exclude])),
         cache=draw(st.booleans()),
         openmp=omp,
@@ -60,40 +136,168 @@ def config_strategy(draw, force_sorted_omp=False, reorder=None,
         reorder=reorder if reorder is not None else
         draw(st.sampled_from([0, 0, 1, 3])),
         sort_gids=True if force_sorted_omp else draw(st.booleans()))
+    if extras:
+        draw_extras(draw, cfg, fixed_ok)
+    return cfg
+
+
+def draw_extras(draw, cfg, fixed_ok):
+    """options beyond the six of the quantifier that must not change the
+    result either; keys are present only when the option is passed"""
+    if cfg['openmp'] and draw(st.integers(0, 2)) == 0:
+        cfg['sched'] = draw(st.sampled_from(SCHEDULES))
+    knobs = TUNE.get(cfg['nnps'])
+    if knobs and draw(st.booleans()):
+        names = sorted(knobs)
+        k = draw(st.integers(1, 2 ** len(names) - 1))
+        cfg['tune'] = {nm: draw(st.sampled_from(knobs[nm]))
+                       for i, nm in enumerate(names) if k >> i & 1}
+    if fixed_ok and draw(st.integers(0, 3)) == 0:
+        cfg['fixed_h'] = True
+
+
+def draw_phys(draw, problem, pin):
+    S = st.sampled_from
+    ph = {}
+    if problem in ('drop', 'column'):
+        ph.update(n=draw(S([10, 14, 24, 32])),
+                  varh=draw(S([True, True, False])),
+                  hamp=draw(S([0.15, 0.5])), dt=draw(S([1e-4, 2e-4])),
+                  nsteps=draw(S([8, 12, 20])))
+        v = draw(S([None, None, None, 'update_h', 'delta_sph',
+                    'summation_density']))
+        if v:
+            ph['variant'] = v
+    elif problem == 'periodic':
+        ph.update(n=draw(S([10, 14, 24, 32])),
+                  varh=draw(S([True, True, False])),
+                  hamp=draw(S([0.15, 0.5])), dt=draw(S([1e-4, 2e-4])),
+                  nsteps=draw(S([8, 12, 20])))
+        ph['pvarh'] = draw(st.booleans())
+    elif problem == 'drop3d':
+        ph.update(n=draw(S([6, 8, 10])), varh=draw(S([True, True, False])),
+                  hamp=draw(S([0.15, 0.5])), dt=draw(S([1e-4, 2e-4])),
+                  nsteps=draw(S([6, 8, 12])))
+    elif problem == 'gas':
+        ph.update(n=draw(S([14, 16, 20])), dt=draw(S([1e-3, 2e-3])),
+                  nsteps=draw(S([6, 8, 12])),
+                  hscheme=draw(S(['mpm', 'gsph'])),
+                  gper=draw(st.booleans()))
+        if draw(S([False, False, True])):
+            ph['gdim'] = 1
+    elif problem == 'channel':
+        ph.update(n=draw(S([12, 16, 24])), pvarh=draw(st.booleans()),
+                  hamp=draw(S([0.15, 0.5])), dt=draw(S([1e-4, 2e-4])),
+                  nsteps=draw(S([8, 12, 20])))
+    elif problem == 'pipe':
+        ph.update(n=draw(S([10, 14, 20])),
+                  varh=draw(S([True, False])), hamp=draw(S([0.15, 0.5])),
+                  dt=5e-4, nsteps=draw(S([12, 16, 20])),
+                  iostages=draw(S([[1], [2], [1, 2]])))
+    if problem in ADAPTIVE_OK and draw(S([False, False, True])):
+        ph['adaptive'] = True
+    pf = draw(S([0, 0, 3, 5]))
+    if pf:
+        ph['pfreq'] = pf
+    if draw(S([False, False, True])):
+        ph['detailed'] = True
+    if draw(S([False, False, False, True])):
+        ph['compress'] = True
+    if draw(st.booleans()):
+        ph['gidperm'] = [draw(st.integers(2, 97)), draw(st.integers(0, 50))]
+    if draw(st.booleans()):
+        ph['marks'] = True
+    ph['vals'] = [draw(st.integers(-8, 8)) / 16.0 for _ in range(16)]
+    for k, v in (pin or {}).items():
+        if v is None:
+            ph.pop(k, None)
+        else:
+            ph[k] = v
+    if problem in ('periodic', 'channel') and ph.get('pvarh') and \
+            ph['n'] < 14:
+        # the box stays wider than two ghost layers of the largest h
+        ph['n'] = 14
+    if problem == 'gas' and ph.get('gper') and ph.get('gdim', 2) == 2:
+        # a particle and its own periodic image (same gid) must never both
+        # be neighbours of one particle, or the order "sorted by gid" is
+        # ambiguous: the box is wider than twice the largest support
+        # (3 h, h up to 0.085 at the lowest density; gsph searches with 2 h)
+        ph['n'] = max(ph['n'], 26 if ph['hscheme'] == 'gsph' else 16)
+    if problem == 'pipe':
+        # about 0.45 particle spacings of travel (the columns next to the
+        # planes start 0.1-0.3 spacings away): particles enter and leave
+        ph['uin'] = round(0.0225 / (ph['dt'] * ph['nsteps']), 3)
+    return ph
 
 
 @st.composite
-def case_strategy(draw, problem, nfree, exclude=(), sweep=False):
+def case_strategy(draw, problem, nfree, exclude=(), sweep=False, pin=None,
+                  cpin=None):
     if sweep:
         # every neighbour algorithm on one multi-resolution input
         cfgs = [dict(nnps=n, cache=draw(st.booleans()), openmp=False,
                      threads=1, reorder=0, sort_gids=draw(st.booleans()))
                 for n in NNPS if n not in exclude and n != 'll']
-        return dict(problem=problem,
-                    phys=dict(n=draw(st.sampled_from([14, 24, 30])),
-                              varh=True,
-                              hamp=draw(st.sampled_from([0.5, 0.75])),
-                              dt=1e-4, nsteps=draw(st.sampled_from([6, 10])),
-                              vals=[draw(st.integers(-8, 8)) / 16.0
-                                    for _ in range(16)]),
-                    configs=cfgs, repeat=draw(st.integers(0, 8)))
-    reorder = draw(st.sampled_from([0, 1, 3]))
-    cfgs = [draw(config_strategy(True, reorder, exclude)) for _ in range(2)]
+        if problem in ('drop', 'column'):
+            phys = dict(n=draw(st.sampled_from([14, 24, 30])), varh=True,
+                        hamp=draw(st.sampled_from([0.5, 0.75])), dt=1e-4,
+                        nsteps=draw(st.sampled_from([6, 10])),
+                        vals=[draw(st.integers(-8, 8)) / 16.0
+                              for _ in range(16)])
+        else:
+            phys = draw_phys(draw, problem, pin)
+            for c in cfgs:
+                if draw(st.booleans()):
+                    draw_extras(draw, c, not h_evolves(problem, phys))
+        if cpin == 'sorted' or (cpin is None and draw(st.booleans())):
+            # every algorithm with sorted neighbours: one bitwise group
+            # (serial) over all of them
+            for c in cfgs:
+                c['sort_gids'] = True
+                c.pop('fixed_h', None)
+        return dict(problem=problem, phys=phys, configs=cfgs,
+                    repeat=draw(st.integers(0, 8)))
+    phys = draw_phys(draw, problem, pin)
+    fixed_ok = not h_evolves(problem, phys)
+    reorders = [0, 1, 3]
+    reorder = draw(st.sampled_from(reorders))
+    cfgs = [draw(config_strategy(True, reorder, exclude, fixed_ok))
+            for _ in range(2)]
     # the tree algorithms build and prune with per-node data in parallel:
     # one of the sorted+OpenMP configurations always is a tree with >= 2
     # threads
     cfgs[0]['nnps'] = draw(st.sampled_from(['tree', 'comp_tree']))
     cfgs[0]['threads'] = draw(st.sampled_from([2, 3, 4, 8, 16]))
-    cfgs += [draw(config_strategy(exclude=exclude)) for _ in range(nfree)]
-    return dict(problem=problem,
-                phys=dict(n=draw(st.sampled_from([10, 14, 24, 32])),
-                          varh=draw(st.sampled_from([True, True, False])),
-                          hamp=draw(st.sampled_from([0.15, 0.5])),
-                          dt=draw(st.sampled_from([1e-4, 2e-4])),
-                          nsteps=draw(st.sampled_from([8, 12, 20])),
-                          vals=[draw(st.integers(-8, 8)) / 16.0
-                                for _ in range(16)]),
-                configs=cfgs, repeat=draw(st.integers(0, 1 + nfree)))
+    if 'tune' in cfgs[0]:
+        cfgs[0]['tune'] = {'leaf_max': draw(st.sampled_from([1, 3, 32]))}
+    if reorder and cfgs[1]['nnps'] not in ORDERING:
+        # the bitwise partner must run: an algorithm that offers spatial
+        # ordering (the others reject --reorder-freq; the free
+        # configurations still try them)
+        cfgs[1]['nnps'] = draw(st.sampled_from(
+            [n for n in ORDERING if n not in exclude]))
+        cfgs[1].pop('tune', None)
+    cfgs[1].pop('fixed_h', None)
+    cfgs[0].pop('fixed_h', None)
+    cfgs += [draw(config_strategy(
+        exclude=exclude, fixed_ok=fixed_ok,
+        reorder=0 if reorders == [0] else None)) for _ in range(nfree)]
+    for i, upd in enumerate(cpin or []):
+        if i < len(cfgs) - 2:
+            c = cfgs[2 + i]
+            c.update(upd)
+            if not fixed_ok:
+                c.pop('fixed_h', None)
+            if not c['openmp']:
+                c['threads'] = 1
+                c.pop('sched', None)
+            if c.get('tune') and set(c['tune']) - set(TUNE.get(c['nnps'],
+                                                               {})):
+                c.pop('tune')
+            if reorders == [0]:
+                c['reorder'] = 0
+    return dict(problem=problem, phys=phys, configs=cfgs,
+                repeat=draw(st.integers(0, 1 + nfree)))
 
 
 REF = dict(nnps='ll', cache=False, openmp=False, threads=1, reorder=0,
@@ -108,6 +312,32 @@ def args_of(cfg):
     a += ['--reorder-freq', str(cfg['reorder'])]
     if cfg['sort_gids']:
         a.append('--sort-gids')
+    if cfg.get('sched'):
+        a += ['--omp-schedule', cfg['sched']]
+    for k, v in sorted((cfg.get('tune') or {}).items()):
+        a += [TUNE_OPT[k], str(v)]
+    if cfg.get('fixed_h'):
+        a.append('--fixed-h')
+    return a
+
+
+def prob_args(phys):
+    """options that define the simulation: the same in every run of a
+    case"""
+    a = []
+    if phys.get('variant'):
+        a.append('--' + phys['variant'].replace('_', '-'))
+    if phys.get('hscheme'):
+        a += ['--adaptive-h', phys['hscheme']]
+    if phys.get('adaptive'):
+        a += ['--adaptive-timestep', '--cfl', '0.2',
+              '--max-steps', str(phys['nsteps'])]
+    if phys.get('pfreq'):
+        a += ['--pfreq', str(phys['pfreq'])]
+    if phys.get('detailed'):
+        a.append('--detailed-output')
+    if phys.get('compress'):
+        a.append('-z')
     return a
 
 
@@ -115,16 +345,23 @@ def run_config(problem, phys, cfg, workdir, tag):
     """-> dict of arrays or a string describing the failure."""
     import numpy as np
     out = os.path.join(workdir, 'c05_%s_%d.npz' % (tag, os.getpid()))
-    env = dict(os.environ, OMP_NUM_THREADS=str(cfg['threads']))
+    # waiting threads sleep instead of spinning: many runs share the
+    # machine (no effect on what the threads compute)
+    env = dict(os.environ, OMP_NUM_THREADS=str(cfg['threads']),
+               OMP_WAIT_POLICY='PASSIVE')
     cmd = [PY, '-X', 'faulthandler', '-m', 'checks.c05_apps', problem, out,
-           json.dumps(phys), '--'] + args_of(cfg)
+           json.dumps(phys), '--'] + prob_args(phys) + args_of(cfg)
     try:
         p = subprocess.run(cmd, env=env, capture_output=True, text=True,
                            timeout=900, cwd=os.path.dirname(
                                os.path.dirname(os.path.abspath(__file__))))
     except subprocess.TimeoutExpired:
+        import shutil
+        shutil.rmtree(out + '_output', ignore_errors=True)
         return 'timeout'
     if p.returncode != 0 or not os.path.exists(out):
+        import shutil
+        shutil.rmtree(out + '_output', ignore_errors=True)
         tail = (p.stderr or '')[-600:]
         return 'exit %s: %s' % (p.returncode, tail)
     d = dict(np.load(out))
@@ -145,6 +382,7 @@ def compare(ref, got, bitwise):
         a, b = ref[k], got[k]
         if a.shape != b.shape:
             return '%s: %d vs %d particles' % (k, len(a), len(b))
+        a, b = a.ravel(), b.ravel()
         if k.endswith('::gid'):
             if not np.array_equal(a, b):
                 return '%s: particle identities differ' % k
@@ -168,22 +406,97 @@ def compare(ref, got, bitwise):
     return None
 
 
+def compare_meta(ref, got, bitwise):
+    """iteration count, number of dumps, final time and the last time step
+    (with adaptive time steps the sequence of steps is part of the
+    result)"""
+    for k in ('__count', '__nfiles'):
+        if k in ref and int(ref[k][0]) != int(got[k][0]):
+            return '%s: %d vs %d' % (k[2:], ref[k][0], got[k][0])
+    for k in ('__t', '__dt'):
+        if k not in ref or k not in got:
+            continue
+        a, b = float(ref[k][0]), float(got[k][0])
+        if bitwise:
+            if a != b:
+                return 'solver %s differs bitwise: %r vs %r' % (k[2:], a, b)
+        elif not abs(a - b) <= 1e-9 * max(abs(a), 1e-12):
+            return 'solver %s differs: %r vs %r' % (k[2:], a, b)
+    return None
+
+
+def nonfinite(res):
+    import numpy as np
+    for k, a in res.items():
+        if a.dtype.kind == 'f' and not np.isfinite(a).all():
+            return k
+    return None
+
+
 def differs(cfg1, cfg2):
-    return any(cfg1[k] != cfg2[k] for k in cfg1)
+    return any(cfg1.get(k) != cfg2.get(k) for k in set(cfg1) | set(cfg2))
+
+
+def phys_labels(problem, phys, ref=None):
+    import numpy as np
+    labels = ['problem:' + problem]
+    if phys.get('varh') and problem not in ('periodic', 'gas', 'channel'):
+        labels.append('variable_h')
+        if phys.get('hamp', 0) >= 0.5:
+            labels.append('h_ratio_2')
+    if phys.get('pvarh') and problem in ('periodic', 'channel'):
+        labels.append('periodic_variable_h')
+    if h_evolves(problem, phys):
+        labels.append('h_evolves')
+    if phys.get('variant'):
+        labels.append('variant:' + phys['variant'])
+    if problem == 'gas':
+        labels.append('gas:' + phys.get('hscheme', 'mpm'))
+        if phys.get('gper'):
+            labels.append('gas:periodic')
+        if phys.get('gdim') == 1:
+            labels.append('gas:1d')
+    if phys.get('adaptive'):
+        labels.append('adaptive_dt')
+    if phys.get('detailed'):
+        labels.append('detailed_output')
+    if phys.get('compress'):
+        labels.append('compressed_output')
+    if phys.get('gidperm'):
+        labels.append('gid_permuted')
+    if phys.get('marks'):
+        labels.append('passive_props')
+    if problem == 'pipe' and 2 in phys.get('iostages', [1, 2]):
+        labels.append('io_last_stage')
+    if ref is not None:
+        if phys.get('adaptive') and '__dt' in ref and \
+                float(ref['__dt'][0]) != phys['dt']:
+            labels.append('dt_varies')
+        if phys.get('pfreq') and any(k.startswith('@') for k in ref):
+            labels.append('intermediate_dumps')
+        if problem == 'pipe' and '__n0' in ref:
+            n0 = int(ref['__n0'][0])
+            if (ref['fluid::gid'] >= n0).any():
+                labels.append('particles_entered')
+            if '__fluid0' in ref and np.isin(ref['outlet::gid'],
+                                             ref['__fluid0']).any():
+                labels.append('particles_left')
+    return labels
 
 
 def check(case, workdir):
     import numpy as np
-    labels = ['problem:' + case['problem']]
-    if case['phys'].get('varh') and case['problem'] != 'periodic':
-        labels.append('variable_h')
-        if case['phys'].get('hamp', 0) >= 0.5:
-            labels.append('h_ratio_2')
+    problem, phys = case['problem'], case['phys']
+    labels = phys_labels(problem, phys)
     if len(set(c['nnps'] for c in case['configs'])) >= 7:
         labels.append('all_nnps_sweep')
+    if any(c.get('reorder') for c in case['configs']):
+        if problem == 'pipe' and 2 in phys.get('iostages', [1, 2]):
+            labels.append('reorder_after_io_in_last_stage')
+        if problem == 'gas' and phys.get('gper'):
+            labels.append('reorder_with_orig_idx_ghosts')
     fails = []
     nontriv = []
-    problem, phys = case['problem'], case['phys']
     ref = run_config(problem, phys, REF, workdir, 'ref')
     if isinstance(ref, str):
         if ref == 'timeout':
@@ -195,13 +508,26 @@ def check(case, workdir):
                              'ran %d steps, expected %d' % (
                                  ref['__count'][0], phys['nsteps']),
                              dict(problem=problem)))
+    bad = nonfinite(ref)
+    if bad:
+        # the simulation itself blew up: nothing to compare against
+        return fails, labels + ['ref_nonfinite'], [], False
+    labels = phys_labels(problem, phys, ref)
+    if len(set(c['nnps'] for c in case['configs'])) >= 7:
+        labels.append('all_nnps_sweep')
+    if any(c.get('reorder') for c in case['configs']):
+        if problem == 'pipe' and 2 in phys.get('iostages', [1, 2]):
+            labels.append('reorder_after_io_in_last_stage')
+        if problem == 'gas' and phys.get('gper'):
+            labels.append('reorder_with_orig_idx_ghosts')
     results = []
     for i, cfg in enumerate(case['configs']):
         r = run_config(problem, phys, cfg, workdir, 'c%d' % i)
         results.append(r)
         for k, l in (('openmp', 'openmp'), ('cache', 'cache'),
-                     ('sort_gids', 'sort_gids')):
-            if cfg[k]:
+                     ('sort_gids', 'sort_gids'), ('sched', 'omp_schedule'),
+                     ('tune', 'nnps_tuning'), ('fixed_h', 'fixed_h_flag')):
+            if cfg.get(k):
                 labels.append(l)
         if cfg['reorder']:
             labels.append('reorder')
@@ -220,35 +546,46 @@ def check(case, workdir):
             fails.append(Failure('Application', 'run_failed',
                                  '%r: %s' % (cfg, r), kl))
             continue
-        msg = compare(ref, r, False)
+        msg = compare(ref, r, False) or compare_meta(ref, r, False)
         if msg:
             fails.append(Failure(
                 'Application', 'differs_from_reference',
                 '%r vs reference configuration: %s' % (cfg, msg), kl))
-        moved = True
         nontriv.append(case_hash([canon(phys), problem, 'ref', canon(cfg)]))
-    # bitwise group: sorted gids + openmp + same reorder
+    # bitwise groups: sorted gids + same reorder (+ same --fixed-h), among
+    # the OpenMP runs (neighbour algorithm, cache, threads, schedule vary)
+    # and among the serial runs (neighbour algorithm and cache vary); runs
+    # with and without OpenMP are different builds and are only held to the
+    # tolerance
     grp = [(c, r) for c, r in zip(case['configs'], results)
-           if c['sort_gids'] and c['openmp'] and not isinstance(r, str)]
+           if c['sort_gids'] and not isinstance(r, str)]
     byr = {}
     for c, r in grp:
-        byr.setdefault(c['reorder'], []).append((c, r))
-    for ro, lst in byr.items():
+        byr.setdefault((c['reorder'], bool(c.get('fixed_h')),
+                        bool(c['openmp'])), []).append((c, r))
+    for (ro, _, omp), lst in byr.items():
         for c, r in lst[1:]:
-            labels.append('bitwise_group')
-            msg = compare(lst[0][1], r, True)
+            labels.append('bitwise_group' if omp else 'bitwise_group_serial')
+            msg = compare(lst[0][1], r, True) or \
+                compare_meta(lst[0][1], r, True)
             if differs(lst[0][0], c):
                 nontriv.append(case_hash([canon(phys), problem,
                                           canon(lst[0][0]), canon(c)]))
             if msg:
                 fails.append(Failure(
                     'Application', 'not_bit_identical',
-                    'sorted neighbours, OpenMP: %r vs %r: %s' % (
-                        lst[0][0], c, msg),
+                    'sorted neighbours, %s: %r vs %r: %s' % (
+                        'OpenMP' if omp else 'serial', lst[0][0], c, msg),
                     dict(problem=problem, nnps=c['nnps'],
                          nnps0=lst[0][0]['nnps'], reorder=bool(ro))))
     # repeat
     j = case['repeat'] % len(case['configs'])
+    for _ in range(len(results)):
+        # a configuration that ran (a rejected combination cannot be
+        # repeated)
+        if not isinstance(results[j], str):
+            break
+        j = (j + 1) % len(results)
     if not isinstance(results[j], str):
         r2 = run_config(problem, phys, case['configs'][j], workdir, 'rep')
         labels.append('repeat')
@@ -263,7 +600,8 @@ def check(case, workdir):
                                               case['configs'][j]['reorder']
                                           ))))
         else:
-            msg = compare(results[j], r2, True)
+            msg = compare(results[j], r2, True) or \
+                compare_meta(results[j], r2, True)
             if msg:
                 fails.append(Failure(
                     'Application', 'not_reproducible',
@@ -273,8 +611,57 @@ def check(case, workdir):
     return fails, sorted(set(labels)), nontriv, False
 
 
+# quick tier: what each shard pins (None = "not set"); everything else is
+# drawn.  The pins make every essential class appear in every run.
+GP = dict(gidperm=[7, 3], marks=True)
+QUICK = [
+    ('cfg-00-drop', 'drop', dict(variant='update_h', adaptive=True), None),
+    ('cfg-01-column', 'column', dict(variant='delta_sph', detailed=True),
+     None),
+    ('cfg-02-periodic', 'periodic', dict(pvarh=True, pfreq=3), None),
+    ('cfg-03-drop', 'drop', dict(variant='summation_density', **GP), None),
+    ('cfg-04-column', 'column', dict(adaptive=True, pfreq=3), None),
+    ('cfg-05-periodic', 'periodic', None, None),
+    ('cfg-06-drop', 'drop', dict(variant=None, varh=True),
+     [dict(openmp=True, threads=3, sched='static'),
+      dict(nnps='esh', tune=dict(H=2, table_size=7)), dict(fixed_h=True)]),
+    ('cfg-07-column', 'column', dict(variant=None, varh=True, **GP),
+     [dict(openmp=True, threads=5, sched='guided,8'),
+      dict(nnps='strat_hash', tune=dict(num_levels=3)),
+      dict(fixed_h=True)]),
+    ('cfg-08-periodic', 'periodic', dict(pvarh=False), None),
+    ('cfg-09-drop', 'drop', None, None),
+    ('cfg-10-column', 'column', dict(variant='update_h'), None),
+    ('cfg-11-periodic', 'periodic', dict(pvarh=True, **GP),
+     [dict(nnps='sh', tune=dict(table_size=7))]),
+    ('d3-00', 'drop3d', dict(varh=True, hamp=0.5, adaptive=True), None),
+    ('d3-01', 'drop3d', None,
+     [dict(nnps='tree', tune=dict(leaf_max=1)), dict(fixed_h=True)]),
+    ('gas-00', 'gas', dict(hscheme='mpm', gper=False, adaptive=True,
+                           gdim=None), None),
+    ('gas-01', 'gas', dict(hscheme='gsph', gper=True, gdim=None), None),
+    ('gas-02', 'gas', dict(hscheme='mpm', gper=True, pfreq=3, gdim=None,
+                           **GP),
+     # re-ordering with ghosts that find their originals through orig_idx
+     [dict(nnps='ll', reorder=1), dict(nnps='ci', reorder=3)]),
+    ('gas-03', 'gas', dict(gdim=1), None),
+    ('chan-00', 'channel', dict(pvarh=True, hamp=0.5),
+     [dict(nnps='esh', tune=dict(H=4)), dict(fixed_h=True)]),
+    ('chan-01', 'channel', None, None),
+    ('pipe-00', 'pipe', dict(iostages=[1], varh=True, **GP), None),
+    ('pipe-01', 'pipe', dict(iostages=[2]),
+     # re-ordering right after the inlet/outlet changed the arrays
+     [dict(nnps='ll', reorder=1), dict(nnps='tree', reorder=3)]),
+    ('pipe-02', 'pipe', dict(iostages=[1], adaptive=True, pfreq=5), None),
+]
+SWEEPS = [('drop', None, 'sorted'), ('column', None, 'drawn'),
+          ('gas', dict(adaptive=None), 'sorted'),
+          ('channel', dict(pvarh=True, hamp=0.5), 'drawn'),
+          ('drop3d', dict(varh=True, hamp=0.5), 'sorted'),
+          ('pipe', dict(iostages=[1, 2]), 'sorted')]
+
+
 def plan(ctx):
-    probs = ['drop', 'column', 'periodic']
     shards = []
     # input classes with an open finding (a neighbour algorithm that is
     # known to be wrong for a problem class) are excluded by construction
@@ -283,29 +670,36 @@ def plan(ctx):
         m = e['match']
         if 'problem' in m and 'nnps' in m:
             excl.setdefault(m['problem'], []).append(m['nnps'])
+    # the finding recorded for the two-array column is about neighbours
+    # between different arrays: the same input class in every problem with
+    # several arrays
+    for pr in MULTI_ARRAY:
+        if pr != 'column' and excl.get('column'):
+            excl[pr] = sorted(set(excl.get(pr, []) + excl['column']))
     if ctx['tier'] == 'quick':
-        for i in range(12):
-            shards.append(dict(name='cfg-%02d-%s' % (i, probs[i % 3]),
-                               problem=probs[i % 3], ncases=1, nfree=4,
-                               exclude=excl.get(probs[i % 3], [])))
-        for pr in ('drop', 'column'):
+        for name, pr, pin, cpin in QUICK:
+            shards.append(dict(name=name, problem=pr, ncases=1, nfree=4,
+                               exclude=excl.get(pr, []), pin=pin,
+                               cpin=cpin))
+        for pr, pin, srt in SWEEPS:
             shards.append(dict(name='sweep-%s' % pr, problem=pr, ncases=1,
-                               nfree=0, sweep=True,
+                               nfree=0, sweep=True, pin=pin, cpin=srt,
                                exclude=excl.get(pr, [])))
     else:
-        for i in range(48):
-            shards.append(dict(name='cfg-%02d-%s' % (i, probs[i % 3]),
-                               problem=probs[i % 3], ncases=12, nfree=8,
-                               exclude=excl.get(probs[i % 3], [])))
-        for i in range(8):
-            pr = ('drop', 'column')[i % 2]
+        for i in range(56):
+            pr = PROBLEMS[i % 7]
+            shards.append(dict(name='cfg-%02d-%s' % (i, pr),
+                               problem=pr, ncases=12, nfree=8,
+                               exclude=excl.get(pr, [])))
+        for i in range(12):
+            pr, pin, _ = SWEEPS[i % 6]
             shards.append(dict(name='sweep-%02d-%s' % (i, pr), problem=pr,
-                               ncases=6, nfree=0, sweep=True,
+                               ncases=6, nfree=0, sweep=True, pin=pin,
                                exclude=excl.get(pr, [])))
     return shards
 
 
-MAX_PARALLEL = 12
+MAX_PARALLEL = 13
 
 
 def run_shard(spec, ctx):
@@ -331,7 +725,8 @@ def run_shard(spec, ctx):
         stats.label('excluded:known:' + ','.join(spec['exclude']))
     search(case_strategy(spec['problem'], spec['nfree'],
                          tuple(spec.get('exclude', [])),
-                         bool(spec.get('sweep'))), execute,
+                         bool(spec.get('sweep')), spec.get('pin'),
+                         spec.get('cpin')), execute,
            derive_seed(ctx.seed, 'C05', spec['name']), spec['ncases'] + 1,
            stats, shrink=False)
     return stats.result()
